@@ -116,14 +116,20 @@ def run(m: Model, r: Report, tier: str) -> None:
     r.check(default is not None and any("self._read_queue.put(HDR.CWord)" in m.mtext(rw, s, fr_roles) for s in default.body), "R5",
             f"{rw.qualname}#control-word-arm", "other control words must be queued as int so that consumers see the error", loc=rw.loc)
     uf = m.require_function(f"{HSFZ}.HSFZConnection._unpack_frame")
-    umt = [n for n in walk_no_nested(uf.node) if isinstance(n, ast.Match)]
-    oku = False
-    if len(umt) == 1:
-        for c in umt[0].cases:
-            if ast.unparse(c.pattern) == "int()":
-                idx_close = [i for i, s in enumerate(c.body) if "await self.close()" in ast.unparse(s)]
-                idx_raise = [i for i, s in enumerate(c.body) if isinstance(s, ast.Raise) and "BrokenPipeError" in ast.unparse(s)]
-                oku = bool(idx_close) and bool(idx_raise) and idx_close[0] < idx_raise[0]
+    # an int frame (error control word): the connection is closed on every path to the BrokenPipeError that reports it (match arm or isinstance test)
+    from sa.cfg import CFG as _CFGu
+    from sa.util import path_condition as _pcu, norm_conds as _ncu
+    gu_ = _CFGu(uf.node)
+    fpar = uf.params()[1] if len(uf.params()) > 1 else "frame"
+    rz = [n for n in gu_.nodes.values() if n.kind == "raise" and n.ast is not None and "BrokenPipeError" in ast.unparse(n.ast)]
+    cz = {n.id for n in gu_.nodes.values() if n.kind == "stmt" and n.ast is not None and "await self.close()" in ast.unparse(n.ast)}
+    def _int_arm(node) -> bool:
+        for mt_ in [x for x in ast.walk(uf.node) if isinstance(x, ast.Match)]:
+            for c in mt_.cases:
+                if any(x is node for b_ in c.body for x in ast.walk(b_)):
+                    return ast.unparse(mt_.subject) == fpar and ast.unparse(c.pattern) == "int()"
+        return (f"isinstance({fpar}, int)", True) in _ncu(_pcu(uf.node, node))
+    oku = bool(rz) and bool(cz) and all(gu_.must_pass(gu_.entry, cz, {n.id})[0] and _int_arm(n.ast) for n in rz)
     r.check(oku, "R5", f"{uf.qualname}#error-word", "an error control word must close the connection and surface as BrokenPipeError", loc=uf.loc)
 
     # ---------------------------------------------------------------- R6 / R7
@@ -137,8 +143,24 @@ def run(m: Model, r: Report, tier: str) -> None:
             f"ack control word test: {first_if_test(ack, 'HSFZStatus')}", loc=ack.loc)
     r.check(first_if_test(diag, "HSFZStatus") == [m.mpat(diag, "hdr.CWord != HSFZStatus.Data")], "R6", f"{diag.qualname}#control-word",
             f"data control word test: {first_if_test(diag, 'HSFZStatus')}", loc=diag.loc)
-    r.check(first_if_test(ack, "prev_data") == [m.mpat(ack, "data != prev_data[:5]")], "R6",
-            f"{ack.qualname}#echo", f"ack echo test: {first_if_test(ack, 'prev_data')}; an ack echoes the first five request bytes", loc=ack.loc)
+    # the echo test, evaluated: an acknowledgement belongs to the request iff it carries exactly the request's first five bytes
+    from sa import miniterp as _mt7
+    apar = ack.params()[1] if len(ack.params()) > 1 else "prev_data"
+    echo_ifs = [n for n in walk_no_nested(ack.node) if isinstance(n, ast.If) and any(isinstance(x, ast.Name) and x.id == apar for x in ast.walk(n.test))]
+    others_ = sorted({x.id for n in echo_ifs for x in ast.walk(n.test) if isinstance(x, ast.Name) and x.id != apar}) if echo_ifs else []
+    if len(echo_ifs) != 1 or len(others_) != 1:
+        r.unrecognised("R6", f"{ack.qualname}#echo", f"{len(echo_ifs)} test(s) read the request bytes ({apar}); names compared with it: {others_}", ack.loc)
+    else:
+        req_ = bytes(range(1, 9))
+        bade = []
+        try:
+            for echo in (req_[:5], req_[:4], req_[:6], b"", req_[1:6], req_[:4] + b"\xff"):
+                skipped = bool(_mt7.eval_expr(echo_ifs[0].test, {apar: req_, others_[0]: echo}))
+                if skipped != (echo != req_[:5]):
+                    bade.append(f"echo {echo.hex() or '<empty>'}: {'skipped' if skipped else 'accepted'}")
+            r.check(not bade, "R6", f"{ack.qualname}#echo", f"for the request {req_.hex()}: {bade}; an ack echoes the first five request bytes", loc=ack.loc)
+        except AnalysisError as ex_:
+            r.unrecognised("R6", f"{ack.qualname}#echo", str(ex_), ack.loc)
     # the ack wait sets aside every frame whose control word is not Ack - data frames included
     cw_tests = [n.test for n in walk_no_nested(ack.node) if isinstance(n, ast.If) and "HSFZStatus.Ack" in ast.unparse(n.test) and any(isinstance(x, ast.Continue) for x in n.body)]
     skips_data = len(cw_tests) == 1 and isinstance(cw_tests[0], ast.Compare) and isinstance(cw_tests[0].ops[0], ast.NotEq)
